@@ -1134,6 +1134,16 @@ func (p *Program) globalWrites(fn *ssa.Function) []string {
 					if g := rooted(i.Map, 0); g != nil {
 						out = append(out, fmt.Sprintf("map %s is updated in %s", g.Name(), f.String()))
 					}
+				case *ssa.UnOp:
+					// a pointer / channel kept in a package-level variable of this module is a handle to state
+					// shared by every caller: loading it lets that state be written through aliases the scan
+					// cannot follow (fields, arguments), so the load itself is reported
+					if g, ok := i.X.(*ssa.Global); ok && i.Op == token.MUL && g.Pkg != nil && p.inModule(f) && p.pkgInModule(g.Pkg) {
+						switch g.Type().(*types.Pointer).Elem().Underlying().(type) {
+						case *types.Pointer, *types.Chan:
+							out = append(out, fmt.Sprintf("shared handle %s (a pointer kept in a package-level variable) is loaded in %s", g.Name(), f.String()))
+						}
+					}
 				case ssa.CallInstruction:
 					cc := i.Common()
 					if bi, isB := cc.Value.(*ssa.Builtin); isB {
@@ -1162,4 +1172,14 @@ func (p *Program) globalWrites(fn *ssa.Function) []string {
 	}
 	walk(fn)
 	return out
+}
+
+// pkgInModule reports whether the SSA package belongs to the module under verification.
+func (p *Program) pkgInModule(pk *ssa.Package) bool {
+	for _, m := range pk.Members {
+		if fn, ok := m.(*ssa.Function); ok {
+			return p.inModule(fn)
+		}
+	}
+	return false
 }
